@@ -76,6 +76,7 @@ type World struct {
 	Fset      *token.FileSet
 	Pkgs      []*packages.Package
 	ByPath    map[string]*packages.Package
+	AllPkgs   map[string]*packages.Package
 	Prog      *ssa.Program
 	Contracts map[string]*Contract
 	CNames    []string
@@ -102,7 +103,9 @@ func loadWorld(repo string) (*World, error) {
 		return nil, fmt.Errorf("no packages loaded from %s", repo)
 	}
 	w.Fset = pkgs[0].Fset
+	w.AllPkgs = map[string]*packages.Package{}
 	packages.Visit(pkgs, nil, func(p *packages.Package) {
+		w.AllPkgs[p.PkgPath] = p
 		if strings.HasPrefix(p.PkgPath, modPath) {
 			for _, e := range p.Errors {
 				w.LoadErrs = append(w.LoadErrs, e.Error())
